@@ -23,6 +23,7 @@ RULE = ("Hypothesis: 1-4 well-formed sequences over a shared pool of 2 channels 
         "overlapping same-key pair across inputs or two inputs whose note spans intersect in time. Distinct by case digest.")
 RULE = RULE + " Rounds e-g: equal-ratio signatures, same-tick signatures of several inputs with a merge-order model, channel pools, silent notes, far shifts, staggered families."
 RULE = RULE + " Round h: all-silent families."
+RULE = RULE + " Round i: channel numbers on signature events."
 ASSUMPTIONS = ["the velocity kept by a fused note is not part of the statement",
                "control/program changes are generated as noise but their fate is not part of the statement"]
 TIERS = {"quick": dict(shards=8, examples=1200, alt_ppqn=[480], alt_shards=2),
@@ -41,7 +42,8 @@ def _case(draw, size=1):
     for t in ks_ticks:
         metas[draw(st.integers(0, k - 1))].append(["ks", t, draw(st.one_of(st.sampled_from(["C", "G", "Db", "C#", "F#", "Gb", "B", "Cb"]),
                                                                        st.sampled_from(gens.KEYS)))])
-    if k >= 2 and (ts_ticks or ks_ticks) and draw(st.integers(0, 2)) == 0:
+    same_tick = k >= 2 and bool(ts_ticks or ks_ticks) and draw(st.integers(0, 2)) == 0
+    if same_tick:
         # several inputs carry a signature of one kind on the SAME tick (values from a two-value pool: A, B, A in merge order);
         # the library's sort is documented as stable, so among equal-channel events the merge order decides which is in force
         kind = draw(st.sampled_from([x for x, ticks in (("ts", ts_ticks), ("ks", ks_ticks)) if ticks]))
@@ -53,6 +55,10 @@ def _case(draw, size=1):
             if draw(st.integers(0, 3)) > 0:
                 v = draw(st.sampled_from(pool))
                 metas[i].append(["ts", t, v[0], v[1]] if kind == "ts" else ["ks", t, v])
+    if not same_tick and draw(st.integers(0, 2)) == 0:
+        # the signature events carry different channel numbers (which signature is in force does not depend on them)
+        for i in range(k):
+            metas[i] = [list(m) + [draw(st.sampled_from([0, 1, 1, 2]))] for m in metas[i]]
     silent_family = draw(st.integers(0, 19)) == 0       # nothing but rests in every input
     if silent_family:
         metas = [[] for _ in range(k)]
